@@ -96,7 +96,7 @@ def wl_cell(ctx, l, L, sep, cap, shadow=None):
     worst = max(images, key=lambda k: len(images[k]))
     p = Fraction(len(images[worst]), len(res))
     if float(p) > 2.0 ** (-E) * (1 + 2.0 ** -12):
-        key = "wordlist-contains-empty-word" if b"" in words else "C06-wordlist"
+        key = "wordlist-contains-empty-word" if any(w in ("", b"") for w in l) else "C06-wordlist"
         ctx.violations.append({"finding_key": key, "what": "token sequence %r has probability %s = %.6g but the recipe reports %.4f bits (2^-E = %.6g)" % (
             list(worst), p, float(p), E, 2.0 ** (-E)), "list": l, "length": L, "cap": cap, "sep": wlgen.sep_json(sep), "line": res[0][4]})
     ctx.sample({"wl_cell": {"list": l, "length": L, "sep": wlgen.sep_json(sep), "cap": cap}, "tuples": len(res), "distinct": len(images), "entropy_bits": E,
